@@ -1,11 +1,15 @@
-(* The library calls of goproxytest/pseudo.go for the translation Gen/ProxySrc.v (table:
-   harness/cmd/genconsts/gen_proxy_src.go).  Definitions only; each is DEFINED as the function
-   the hand-written model already uses for the same call (Proxy/Proxy.v, Proxy/XMod.v,
+(* The library calls of goproxytest/pseudo.go and proxy.go for the translation Gen/ProxySrc.v
+   (table: harness/cmd/genconsts/gen_proxy_src.go).  Definitions only; each is DEFINED as the
+   function the hand-written model already uses for the same call (Proxy/Proxy.v, Proxy/XMod.v,
    Proxy/Regex.v), all of which the runner of harness/cmd/proxy compares with the real
-   packages (cross-checks "xmod:*"). *)
-From Coq Require Import List ZArith.
+   packages (cross-checks "xmod:*" for x/mod, semver and the regexp; the string functions
+   through every routed URL and every directory name of the differential run), or as a
+   function of Lib/GoSemData.v (fmt), TxtarWrite/Path.v (filepath.Join, validated by the runner
+   of harness/cmd/txtarwrite). *)
+From Coq Require Import List ZArith Bool.
 From Coq.Strings Require Import Byte.
-From GI Require Import Lib.Bytes Lib.GoSem Proxy.Regex Proxy.Proxy Proxy.XMod.
+From GI Require Import Lib.Bytes Lib.GoSem Lib.GoSemData Proxy.Regex Proxy.Proxy Proxy.XMod.
+From GI Require TxtarWrite.Path.
 Import ListNotations.
 
 (* strings.Count(s, substr): modelled for a substring of exactly one byte (the number of its
@@ -22,3 +26,111 @@ Definition go_semver_IsValid (v : bytes) : bool := semver_is_valid v.
 (* re.MatchString(s) for a compiled regular expression re, given as the term of Proxy/Regex.v
    that genconsts makes from the expression's regexp/syntax parse tree *)
 Definition go_regexp_MatchString (re : regex) (s : bytes) : bool := re_match re s.
+
+(* ------------------------------------------------------------------ strings (proxy.go)
+   each is the function of Proxy/Proxy.v that the model uses for the same call *)
+
+(* strings.HasPrefix(s, p), strings.HasSuffix(s, p) *)
+Definition go_strings_HasPrefix (s p : bytes) : bool := Proxy.has_prefix p s.
+Definition go_strings_HasSuffix (s p : bytes) : bool := Proxy.has_suffix p s.
+(* strings.TrimPrefix(s, p), strings.TrimSuffix(s, p) *)
+Definition go_strings_TrimPrefix (s p : bytes) : bytes :=
+  if Proxy.has_prefix p s then skipn (length p) s else s.
+Definition go_strings_TrimSuffix (s p : bytes) : bytes := Proxy.trim_suffix p s.
+(* strings.Index(s, sep), strings.LastIndex(s, sep): -1 when sep does not occur *)
+Definition go_strings_Index (s sep : bytes) : Z := opt_pos (Proxy.index sep s).
+Definition go_strings_LastIndex (s sep : bytes) : Z := opt_pos (Proxy.last_index sep s).
+(* strings.ReplaceAll(s, old, new): modelled for old and new of exactly one byte; any other use
+   is outside the modelled domain *)
+Definition go_strings_ReplaceAll (s old new : bytes) : res bytes :=
+  match old, new with
+  | [a], [b] => Ok (Proxy.replace_byte a b s)
+  | _, _ => Panic
+  end.
+
+(* ------------------------------------------------------------------ golang.org/x/mod
+   module.UnescapePath / UnescapeVersion / EscapePath / EscapeVersion return ("", err) on
+   failure; an error is the bool "is not nil".  They are the model's functions over the
+   computed oracles of Proxy/XMod.v (CheckPath, checkElem as modelled there). *)
+Definition xmod_O : oracles := xmod_oracles (fun _ => []).
+
+Definition go_opt_err (o : option bytes) : bytes * bool :=
+  match o with Some s => (s, false) | None => ([], true) end.
+
+Definition go_module_UnescapePath (enc : bytes) : bytes * bool := go_opt_err (unescape_path xmod_O enc).
+Definition go_module_UnescapeVersion (enc : bytes) : bytes * bool := go_opt_err (unescape_version xmod_O enc).
+Definition go_module_EscapePath (p : bytes) : bytes * bool := go_opt_err (escape_path xmod_O p).
+Definition go_module_EscapeVersion (v : bytes) : bytes * bool := go_opt_err (escape_version xmod_O v).
+(* module.Check(path, version) != nil *)
+Definition go_module_Check (p v : bytes) : bool := negb (module_check_x p v).
+(* semver.Compare(v, w): -1, 0, +1 *)
+Definition go_semver_Compare (v w : bytes) : Z :=
+  match semver_compare v w with Lt => (-1)%Z | Eq => 0%Z | Gt => 1%Z end.
+
+(* ------------------------------------------------------------------ values of library and
+   package types, as far as the translated segments read them *)
+
+(* fs.DirEntry: the name and whether it is a directory *)
+Definition go_direntry : Type := (bytes * bool)%type.
+Definition go_direntry_Name (e : go_direntry) : bytes := fst e.
+Definition go_direntry_IsDir (e : go_direntry) : bool := snd e.
+
+(* *url.URL and *http.Request: the path of the URL *)
+Definition go_url : Type := bytes.
+Definition mkURL (p : bytes) : go_url := p.
+Definition url_Path (u : go_url) : bytes := u.
+Definition go_request : Type := go_url.
+Definition mkRequest (u : go_url) : go_request := u.
+Definition req_URL (r : go_request) : go_url := r.
+
+(* txtar.Archive *)
+Record go_archive := mkArchive { ar_comment : bytes; ar_files : list (bytes * bytes) }.
+
+(* goproxytest.Server: the directory name, the module list, and -- in the place of the field
+   archiveCache, which together with the (read-only) directory determines it -- what findHash
+   returns for a module version (findHash reads archive files and calls json.Unmarshal: an
+   oracle; Proxy/SrcSegFacts.v instantiates it with the translated .info selection of findHash
+   applied to the archive the model stores) *)
+Record go_server := mkServer {
+  srv_dir : bytes;
+  srv_modList : list (bytes * bytes);
+  srv_archives : (bytes * bytes) -> bytes
+}.
+(* srv.findHash(m) *)
+Definition srv_findHash (s : go_server) (m : bytes * bytes) : bytes := srv_archives s m.
+
+(* ------------------------------------------------------------------ net/http
+   An http.ResponseWriter is denoted by the response written so far: the status (0 = no header
+   written yet) and the body.  w.Write(p) writes the header 200 first if none was written;
+   http.Error(w, msg, code) is WriteHeader(code) -- without effect on the status when a header
+   was already written -- followed by Fprintln(w, msg); http.NotFound(w, r) is
+   http.Error(w, "404 page not found", 404).  (Header fields are not denoted.)  The runner
+   compares the status and the body of every response with the model's. *)
+Record go_response := mkResponse { rw_status : Z; rw_body : bytes }.
+Definition go_response_empty : go_response := mkResponse 0 [].
+
+Definition go_http_Write (w : go_response) (p : bytes) : go_response :=
+  mkResponse (if (rw_status w =? 0)%Z then 200%Z else rw_status w) (rw_body w ++ p).
+Definition go_http_Error (w : go_response) (msg : bytes) (code : Z) : go_response :=
+  mkResponse (if (rw_status w =? 0)%Z then code else rw_status w) (rw_body w ++ msg ++ [x0a]).
+Definition not_found_text : bytes :=
+  [x34; x30; x34; x20; x70; x61; x67; x65; x20; x6e; x6f; x74; x20; x66; x6f; x75; x6e; x64].
+Definition go_http_NotFound (w : go_response) (r : go_request) : go_response :=
+  go_http_Error w not_found_text 404%Z.
+(* fmt.Fprintf(w, format, args...) on a ResponseWriter: w.Write of the formatted text *)
+Definition go_fmt_Fprintf (w : go_response) (f : bytes) (args : list fmt_arg) : res go_response :=
+  bind (go_fmt_Sprintf f args) (fun t => Ok (go_http_Write w t)).
+(* err.Error(): error texts are not observable (an error is the bool "is not nil") *)
+Definition go_error_Error (e : bool) : bytes := [].
+
+(* ------------------------------------------------------------------ path/filepath *)
+
+(* filepath.Join(elem...), modelled for two elements; any other use is outside the modelled
+   domain *)
+Definition go_filepath_Join (elems : list bytes) : res bytes :=
+  match elems with
+  | [a; b] => Ok (TxtarWrite.Path.join a b)
+  | _ => Panic
+  end.
+(* filepath.ToSlash(p): the identity on Unix (os.PathSeparator = '/') *)
+Definition go_filepath_ToSlash (p : bytes) : bytes := TxtarWrite.Path.to_slash p.
